@@ -62,8 +62,29 @@ func c16Run(v asmVariant, ops []asmOp, split int, slack int, decoy bool) string 
 // again into A -- directly (mode 0) or through a second Clone/Append (mode 1): an emitter that went
 // through Clone/Append must also BEHAVE like the direct one afterwards.
 func c16RunResume(v asmVariant, ops []asmOp, split, resume, mode int, slack int, decoy bool) string {
+	return c16RunFull(v, ops, split, resume, mode, slack, decoy, false)
+}
+
+// c16RunFull: dry=true runs the whole scenario with emitters that have no target buffer (NewEmitter(nil),
+// Clone(nil)): program counter, tracked flags and label addresses must still be those of direct emission.
+func c16RunFull(v asmVariant, ops []asmOp, split, resume, mode int, slack int, decoy, dry bool) string {
 	const roomy = 512
-	d := newRealEmitter(v, roomy)
+	mk := func(capacity int) *asm.Emitter {
+		if dry {
+			return newRealEmitter(v, -1)
+		}
+		return newRealEmitter(v, capacity)
+	}
+	cl := func(p *asm.Emitter) *asm.Emitter {
+		if dry {
+			return p.Clone(nil)
+		}
+		return p.Clone(make([]byte, roomy))
+	}
+	if dry && (slack != 99 || decoy) {
+		return ""
+	}
+	d := mk(roomy)
 	outcome := make([]bool, len(ops))
 	pcAfter := make([]uint32, len(ops))
 	lenAfter := make([]int, len(ops)+1)
@@ -83,7 +104,7 @@ func c16RunResume(v asmVariant, ops []asmOp, split, resume, mode int, slack int,
 			return ""
 		}
 	}
-	a := newRealEmitter(v, capA)
+	a := mk(capA)
 	for i, op := range ops[:split] {
 		if (applyReal(a, op) != nil) != outcome[i] {
 			if slack != 99 {
@@ -97,7 +118,7 @@ func c16RunResume(v asmVariant, ops []asmOp, split, resume, mode int, slack int,
 	var pn interface{}
 	func() {
 		defer func() { pn = recover() }()
-		c = a.Clone(make([]byte, roomy))
+		c = cl(a)
 	}()
 	if pn != nil {
 		return fmt.Sprintf("Clone panicked: %v", pn)
@@ -113,7 +134,7 @@ func c16RunResume(v asmVariant, ops []asmOp, split, resume, mode int, slack int,
 	nested := mode == 2 && resume < len(ops)
 	if nested {
 		// the rest goes into a clone OF THE CLONE, which is appended to the clone before the clone is appended
-		c2 := c.Clone(make([]byte, roomy))
+		c2 := cl(c)
 		for i, op := range ops[resume:] {
 			if (applyReal(c2, op) != nil) != outcome[resume+i] {
 				return fmt.Sprintf("call #%d %s in a clone of the clone: refused=%v, %v in the direct emitter", resume+i, op.name, !outcome[resume+i], outcome[resume+i])
@@ -183,7 +204,7 @@ func c16RunResume(v asmVariant, ops []asmOp, split, resume, mode int, slack int,
 		// keep emitting after the Append
 		tgt := a
 		if mode == 1 {
-			tgt = a.Clone(make([]byte, roomy))
+			tgt = cl(a)
 		}
 		for i, op := range ops[resume:] {
 			if (applyReal(tgt, op) != nil) != outcome[resume+i] {
@@ -208,6 +229,9 @@ func c16RunResume(v asmVariant, ops []asmOp, split, resume, mode int, slack int,
 			return fmt.Sprintf("after Append and %d further calls (mode %d) the emitter differs from the direct one: %s", len(ops)-resume, mode, df)
 		}
 		return "after Append the emitter differs from the direct one: " + df
+	}
+	if dry {
+		return "" // there are no bytes to patch: Finalize on an emitter without a target is outside the listed properties
 	}
 	// Finalize outcome and finalized bytes: like the direct emitter (which of several errors is reported
 	// depends on map order; whether Finalize is RIGHT is C06's question, not this one's)
@@ -241,6 +265,13 @@ func replayC16(raw json.RawMessage) (string, error) {
 		for _, decoy := range []bool{false, true} {
 			if d := c16Run(h.Variant, ops, h.Split, slack, decoy); d != "" {
 				return fmt.Sprintf("%+v %v split %d slack %d decoy %v: %s", h.Variant, h.Ops, h.Split, slack, decoy, d), fmt.Errorf("unexplained:clone-append")
+			}
+		}
+	}
+	for resume := h.Split; resume <= len(ops); resume++ {
+		for mode := 0; mode <= 2; mode++ {
+			if d := c16RunFull(h.Variant, ops, h.Split, resume, mode, 99, false, true); d != "" {
+				return fmt.Sprintf("%+v %v split %d resume %d mode %d, emitters without a target buffer: %s", h.Variant, h.Ops, h.Split, resume, mode, d), fmt.Errorf("unexplained:clone-append")
 			}
 		}
 	}
@@ -281,12 +312,20 @@ func runC16(r *report.Run) {
 					}
 				}
 				if withSlack {
+					n++
+					if d := c16RunFull(v, ops, split, len(ops), 0, 99, false, true); d != "" {
+						return "unexplained:clone-append", fmt.Sprintf("%+v %v split %d, emitters without a target buffer: %s", v, historyNames(al, idx), split, d), n, &asmHistory{Variant: v, Ops: historyNames(al, idx), Capacity: -1, Split: split}
+					}
 					// stage 1 only: emission continues after the Append, directly or through a second clone
 					for resume := split; resume < len(ops); resume++ {
 						for mode := 0; mode <= 2; mode++ {
 							n++
 							if d := c16RunResume(v, ops, split, resume, mode, 99, false); d != "" {
 								return "unexplained:clone-append", fmt.Sprintf("%+v %v split %d resume %d mode %d: %s", v, historyNames(al, idx), split, resume, mode, d), n, &asmHistory{Variant: v, Ops: historyNames(al, idx), Capacity: 512, Split: split}
+							}
+							n++
+							if d := c16RunFull(v, ops, split, resume, mode, 99, false, true); d != "" {
+								return "unexplained:clone-append", fmt.Sprintf("%+v %v split %d resume %d mode %d, emitters without a target buffer: %s", v, historyNames(al, idx), split, resume, mode, d), n, &asmHistory{Variant: v, Ops: historyNames(al, idx), Capacity: -1, Split: split}
 							}
 						}
 					}
@@ -314,7 +353,7 @@ func runC16(r *report.Run) {
 	r.Set("histories", hist)
 	r.Set("history_x_split_x_capacity_cases", st)
 	r.Set("bounds", map[string]interface{}{"history_depth": depth, "alphabet": len(asmAlphabet()), "constructor_variants": len(stage1), "splits": "every split point 0..n; at the first depth also every resume point (clone gets ops[split:resume], the rest is emitted after the Append directly, through a second Clone/Append, or before it through a clone of the clone)", "append_capacity_slack": []int{-1, 0, 1}})
-	r.Set("rule", "every call sequence up to the depth x every split point x every constructor variant: head into A, A.Clone, tail into the clone, A.Append(clone), compared with a direct emitter on Bytes/Len/PC/Flags/GetLabel/text and hex listings/Finalize outcome and finalized bytes; A is compared with its own snapshot before Append; at the first depth the emitter keeps emitting after the Append (every resume point: directly, through a second Clone/Append, or nested through a clone of the clone) and must still equal the direct one; Append with remaining capacity exactly tail-1 must be refused leaving A unchanged, tail and tail+1 must succeed; non-trivial = split strictly inside or capacity-edge cases")
+	r.Set("rule", "every call sequence up to the depth x every split point x every constructor variant: head into A, A.Clone, tail into the clone, A.Append(clone), compared with a direct emitter on Bytes/Len/PC/Flags/GetLabel/text and hex listings/Finalize outcome and finalized bytes; A is compared with its own snapshot before Append; at the first depth every scenario is also run with emitters that have no target buffer (NewEmitter(nil), Clone(nil)) and the emitter keeps emitting after the Append (every resume point: directly, through a second Clone/Append, or nested through a clone of the clone) and must still equal the direct one; Append with remaining capacity exactly tail-1 must be refused leaving A unchanged, tail and tail+1 must succeed; non-trivial = split strictly inside or capacity-edge cases")
 	r.Sample(asmHistory{Variant: variants[2], Ops: []string{"BNE(a)", "Label(b)", "JMP_abs(b)", "Label(a)"}, Capacity: 512, Split: 2})
 	r.Assume("Finalize error choice depends on Go map order: the two emitters must both fail or both succeed, the errors need not be equal")
 }
